@@ -95,6 +95,7 @@ LIBRARY = {
 }
 LEGACY = {"IDLE", "PHASEGATE"}
 TARGETS_ONLY = ["TOFFOLI", "FREDKIN"]
+EXCHANGE_SYMMETRIC = ["SWAP", "ISWAP", "SQRTSWAP", "SQRTISWAP", "SWAPALPHA", "BERKELEY", "iSWAP", "SWAPalpha"]
 ALIASES = {"iSWAP": "ISWAP", "SWAPalpha": "SWAPALPHA"}
 # other spellings with the same operator (`aliasOf` of lean/QipVerif/Lemmas/SchedFull.lean); compared on the real library
 SAME_OPERATOR = {"H": "SNOT", "CX": "CNOT", "iSWAP": "ISWAP", "SWAPalpha": "SWAPALPHA"}
@@ -223,6 +224,12 @@ def placements(N, names=None):
                 out.append((name, list(ts), []))
                 if name == "TOFFOLI":          # TOFFOLI(controls=[c1], targets=[c2, t]): also accepted by the class
                     out.append((name, list(ts[1:]), [ts[0]]))
+    # the two qubits of an exchange-symmetric gate split into `controls` and `targets`: SWAP(controls=[a], targets=[b]) is
+    # accepted by the two-qubit classes and acts like SWAP([a, b])
+    for name in EXCHANGE_SYMMETRIC:
+        if (names is None or name in names) and name in LIBRARY and N >= 2:
+            for a, b in itertools.permutations(range(N), 2):
+                out.append((name, [b], [a]))
     return out
 
 
@@ -236,6 +243,15 @@ def placements(N, names=None):
 # "array1" is used by the oracles only (a one-element array [0] is falsy, so the code's rule is more conservative than for
 # the list [0]; the schedules are valid but differ from the model's).
 FORMS = ["list", "npint", "array1"]
+# object forms of a gate (the scheduler only sees the object's `name`, `targets`, `controls`):
+#   "class"   an instance of the exported library class GATE_CLASS_MAP[name] (CRX(...), CY(...), CS(...) are instances of ONE
+#             class and all carry the name `_OneControlledGate`; TOFFOLI(...), SWAP(...) carry their class name)
+#   "cgate"   for the one-control gates: the generic ControlledGate(controls, targets, control_value=1, target_gate=<class>)
+#             (name `ControlledGate`)
+#   "bare"    the generic Gate(name, targets=..., controls=...) kept for backward compatibility
+# The oracles judge by the matrices of the spec (the operator the object denotes), never by the object's name.
+OBJECT_FORMS = ["class", "cgate", "bare"]
+CONTROLLED_TARGET = {"CNOT": "X", "CX": "X", "CY": "Y", "CZ": "Z", "CS": "S", "CT": "T", "CRX": "RX", "CRY": "RY", "CRZ": "RZ"}
 
 
 def make_gate(spec, form="list"):
@@ -247,6 +263,24 @@ def make_gate(spec, form="list"):
     if form == "array1" and len(ts) <= 1 and len(cs) <= 1 and ts:
         return Gate(name, targets=np.array(list(ts)), controls=np.array(list(cs)) if cs else None, arg_value=arg)
     t, c = list(ts), (list(cs) if cs else None)
+    if form in OBJECT_FORMS:
+        from qutip_qip.operations.gateclass import GATE_CLASS_MAP, ControlledGate
+        kw = {} if arg is None else {"arg_value": arg}
+        try:
+            if form == "bare" or name not in GATE_CLASS_MAP:
+                g = Gate(name, targets=t, controls=c, arg_value=arg)
+                try:
+                    g.get_compact_qobj()        # names the generic class cannot resolve (H, MS, RZX, ...) keep the form by name
+                    return g
+                except NotImplementedError:
+                    raise TypeError
+            if form == "cgate" and name in CONTROLLED_TARGET and c is not None and len(c) == 1 and len(t) == 1:
+                return ControlledGate(controls=c, targets=t, control_value=1, target_gate=GATE_CLASS_MAP[CONTROLLED_TARGET[name]], **kw)
+            if c is not None:
+                return GATE_CLASS_MAP[name](controls=c, targets=t, **kw)
+            return GATE_CLASS_MAP[name](targets=t, **kw)
+        except TypeError:           # a class with another signature: the form by name
+            pass
     if form == "npint":
         t = np.int64(t[0]) if len(t) == 1 else [np.int64(x) for x in t]
         if c is not None:
@@ -394,9 +428,12 @@ def flag_ok(spec):
     if not sc_flag(spec[0]):
         return False
     for g in tree_guards():
-        if g["kind"] == "len" and len(spec[1]) > g["k"]:
+        bad_len = g["kind"] in ("len", "lensym") and (len(spec[1]) > g["k"] if g.get("op", ">") == ">" else len(spec[1]) != g["k"])
+        if g["kind"] == "len" and bad_len:
             return False
-        if g["kind"] == "lensym" and len(spec[1]) > g["k"] and spec[0] not in g["names"]:
+        if g["kind"] == "lensym" and bad_len and spec[0] not in g["names"]:
+            return False
+        if g["kind"] == "ctlsym" and spec[2] and spec[0] in g["names"]:
             return False
     return True
 
@@ -404,7 +441,7 @@ def flag_ok(spec):
 def tree_unrepaired():
     """the tree lacks one of the repairs of the commutation rule (no _SELF_COMMUTING_GATES, or no guard on gates given by
     several non-interchangeable targets: fixes/C05-1, C05-2, C05-4): the recorded classes are then skipped by the oracles"""
-    return self_commuting_names() is None or not any(g["kind"] == "lensym" for g in tree_guards())
+    return self_commuting_names() is None or not any(g["kind"] == "ctlsym" for g in tree_guards())
 
 
 def alias_ok():
@@ -827,7 +864,9 @@ def known_class_pair(specs, N):
         for i in range(len(specs)):
             for j in range(i + 1, len(specs)):
                 a, b = specs[i], specs[j]
-                if a[0] == b[0] and (len(a[1]) > 1 or len(b[1]) > 1) and used_of(a) & used_of(b) and documented_rule(a, b):
+                if a[0] == b[0] and (len(a[1]) != 1 or len(b[1]) != 1 or (a[2] and b[2] and len(a[2]) == 1 and
+                                                                          a[0] in EXCHANGE_SYMMETRIC)) \
+                        and used_of(a) & used_of(b) and documented_rule(a, b):
                     A, B = gate_matrix(a, N), gate_matrix(b, N)
                     if np.abs(A @ B - B @ A).max() > 1e-9:
                         return (i, j)
